@@ -417,3 +417,28 @@ package scheduler
 //@   mode nopanic=off
 //@   at[flag] call scheduler.PartitionContext.IsQuotaPreemptionEnabled#1 after: assume ret == qpenabled(arg0)
 //@   at[enabled] call objects.Queue.TryQuotaPreemption#1: assert arg0 == psc.root && qpenabled(psc)
+
+// ================================================================ partition counters and the application registry
+
+//@ global forall p *PartitionContext :: p.allocations < 4611686018427387904 && p.allocations > -4611686018427387904 && p.placeholderAllocations < 4611686018427387904 && p.placeholderAllocations > -4611686018427387904
+
+//@ func (pc *PartitionContext) updateAllocationCount(allocs int)
+//@   props C03
+//@   mode nopanic=off
+//@   holds allocs > -4611686018427387904 && allocs < 4611686018427387904
+//@   assigns pc.allocations
+//@   ensures pc.allocations == old(pc.allocations) + allocs
+
+//@ func (pc *PartitionContext) incPhAllocationCount()
+//@   props C03
+//@   mode nopanic=off
+//@   assigns pc.placeholderAllocations
+//@   ensures pc.placeholderAllocations == old(pc.placeholderAllocations) + 1
+
+// un-registering an application takes exactly that id out of the partition and hands back the object that was registered
+//@ func (pc *PartitionContext) removeAppInternal(appID string) (app *objects.Application)
+//@   props C03 C10
+//@   mode nopanic=off
+//@   ensures[handed] app == old(pc.applications[appID])
+//@   ensures[gone] app != nil ==> !(appID in pc.applications)
+//@   ensures[others] forall k string :: k != appID ==> (k in pc.applications) == old(k in pc.applications) && pc.applications[k] == old(pc.applications[k])
